@@ -46,5 +46,7 @@ GNext == UNCHANGED vars
 ASSUME ndJsonSerialize(IOEnv.OUT_SUBSETS, SetToSeq(SubsetCases))
 ASSUME ndJsonSerialize(IOEnv.OUT_EDITS, SetToSeq(EditCases \cup TopCases))
 ASSUME ndJsonSerialize(IOEnv.OUT_TABLES, << Tables >>)
+ASSUME FramingInjective
+ASSUME ndJsonSerialize(IOEnv.OUT_SIZED, SetToSeq(SizedCases))
 ASSUME PrintT(<<"EMITTED", Cardinality(SubsetCases), Cardinality(EditCases) + Cardinality(TopCases)>>)
 ====
